@@ -134,10 +134,10 @@ Definition alg_from_curve (bits : Z) : Z :=
   | None => match tbl_algFromCurve_default with Some d => d | None => 0 end
   end.
 
-(* ecCoordinate: x / y on the full field size; a value that does not fit is
-   left unpadded (and refused by validate) *)
+(* ecCoordinate: big.Int.Bytes() of x / y; the value 0, which has no bytes at all,
+   is stored as size zero octets (F5; MarshalCBOR pads shorter coordinates) *)
 Definition ec_coord (v size : Z) : bytes :=
-  if (v <? 0) || (256 ^ size <=? v) then zbytes (Z.abs v) else be_enc (Z.to_nat size) v.
+  if v =? 0 then repeat 0 (Z.to_nat size) else zbytes (Z.abs v).
 Definition field_size (bits : Z) : Z := (bits + 7) / 8.
 
 Definition new_key_from_public (p : pubkey) : res key :=
